@@ -5,6 +5,48 @@ From C44 Require Import C44Spec C44_gen C44Statements C44Tactics.
 Import ListNotations.
 Local Open Scope R_scope.
 
+Lemma fromrot_1_index_proof : fromrot_1_index_ok.
+Proof. unfold fromrot_1_index_ok. prove fromrot_1. Qed.
+
+Lemma fromrot_1_acts_proof : fromrot_1_acts_ok.
+Proof. unfold fromrot_1_acts_ok. intros; unfold app_1, fromrot_1; spec_red; list_eq. Qed.
+
+Lemma cb2_1_meaning_proof : cb2_1_meaning_ok.
+Proof. unfold cb2_1_meaning_ok. prove cb2_1. Qed.
+
+Lemma cb4_1_index_proof : cb4_1_index_ok.
+Proof. unfold cb4_1_index_ok. prove cb4_1. Qed.
+
+Lemma app_1_meaning_proof : app_1_meaning_ok.
+Proof. unfold app_1_meaning_ok. prove app_1. Qed.
+
+Lemma fromrot_2_index_proof : fromrot_2_index_ok.
+Proof. unfold fromrot_2_index_ok. prove fromrot_2. Qed.
+
+Lemma fromrot_2_acts_proof : fromrot_2_acts_ok.
+Proof. unfold fromrot_2_acts_ok. intros; unfold app_2, fromrot_2; spec_red; list_eq. Qed.
+
+Lemma cb2_2_meaning_proof : cb2_2_meaning_ok.
+Proof. unfold cb2_2_meaning_ok. prove cb2_2. Qed.
+
+Lemma cb4_2_index_proof : cb4_2_index_ok.
+Proof. unfold cb4_2_index_ok. prove cb4_2. Qed.
+
+Lemma app_2_meaning_proof : app_2_meaning_ok.
+Proof. unfold app_2_meaning_ok. prove app_2. Qed.
+
+Lemma fromrot_3_index_proof : fromrot_3_index_ok.
+Proof. unfold fromrot_3_index_ok. prove fromrot_3. Qed.
+
+Lemma fromrot_3_acts_proof : fromrot_3_acts_ok.
+Proof. unfold fromrot_3_acts_ok. intros; unfold app_3, fromrot_3; spec_red; list_eq. Qed.
+
+Lemma cb2_3_meaning_proof : cb2_3_meaning_ok.
+Proof. unfold cb2_3_meaning_ok. prove cb2_3. Qed.
+
+Lemma app_3_meaning_proof : app_3_meaning_ok.
+Proof. unfold app_3_meaning_ok. prove app_3. Qed.
+
 Lemma isoD_tri_meaning_proof : isoD_tri_meaning_ok.
 Proof. unfold isoD_tri_meaning_ok. prove isoD_tri. Qed.
 
@@ -30,7 +72,7 @@ Lemma isosig_pstress_alt_szz_proof : isosig_pstress_alt_szz_ok.
 Proof. unfold isosig_pstress_alt_szz_ok. intros; unfold isosig_pstress_alt; spec_red; comp. Qed.
 
 Lemma isosig_pstress_alt_is_3D_condensed_proof : isosig_pstress_alt_is_3D_condensed_ok.
-Proof. unfold isosig_pstress_alt_is_3D_condensed_ok. intros; unfold isosig_tri, isosig_pstress_alt; spec_red; list_eq. Qed.
+Proof. unfold isosig_pstress_alt_is_3D_condensed_ok. intros; nzprod; unfold isosig_tri, isosig_pstress_alt; spec_red; list_eq. Qed.
 
 Lemma ortsig_pstrain_is_3D_restricted_proof : ortsig_pstrain_is_3D_restricted_ok.
 Proof. unfold ortsig_pstrain_is_3D_restricted_ok. intros; unfold ortsig_tri, ortsig_pstrain; spec_red; list_eq. Qed.
